@@ -62,6 +62,56 @@ def cmdDec (args : List String) : String :=
       | r => resTag r
   | _ => "bad-args"
 
+/-! ### `decsum <dt> <hex>`: the frozen-format decoder as a STREAMING loop (the spec's `unit` iterated tail-recursively,
+the same checks as `decBody`/`decChunks`), printing only the count and a digest of the numbers
+(`h = h*31 + pattern + 1 mod 2^61-1`). For files whose numbers are too many to build as a list (a run of 2^23+1
+numbers takes a few bytes). Delta order 0 only. -/
+
+def digestUnits (t : Table) (d : DType) : Nat → UState → Bits → Nat → Option (Nat × Bits)
+  | 0, _, s, h => some (h, s)
+  | n + 1, st, s, h =>
+    match unit t st s with
+    | .ok (x, st') r => digestUnits t d n st' r ((h * 31 + d.fromU x + 1) % (2 ^ 61 - 1))
+    | _ => none
+
+def decSumChunks (gb : Nat → Nat) (d : DType) (fl : Flags) : Nat → Bits → Nat → Nat → Nat → String
+  | 0, _, _, _, _ => "insufficient"
+  | fuel + 1, s, n, h, nchunks =>
+    match Parser.readNat 8 s with
+    | .ok b r0 =>
+      if b = Frozen.magicTerminationByte then s!"ok n={n} digest={h} rest={r0.length} nchunks={nchunks}"
+      else if b != Frozen.magicChunkByte then "corrupt"
+      else
+        match decChunkMeta gb d fl r0 with
+        | .ok m r1 =>
+          let nBody := bodyCount fl m.n
+          if m.prefixes.isEmpty && nBody > 0 then "corrupt"
+          else if !m.prefixes.isEmpty && !completeTree (m.prefixes.map (·.code)) then "corrupt"
+          else
+            match digestUnits (tableOf m.prefixes) d nBody none r1 h with
+            | none => "body-failed"
+            | some (h', r2) =>
+              let pad := (8 - (r1.length - r2.length) % 8) % 8
+              if (r2.take pad).any id || r2.length < pad then "corrupt-padding"
+              else
+                let r3 := r2.drop pad
+                if r1.length - r3.length != m.bodyBytes * 8 then "corrupt-size"
+                else decSumChunks gb d fl fuel r3 (n + nBody) h' (nchunks + 1)
+        | r => resTag r
+    | r => resTag r
+
+def cmdDecSum (args : List String) : String :=
+  match args with
+  | [dt, hex] =>
+    match Frozen.dtypeByName dt with
+    | none => "bad-dtype"
+    | some d =>
+      let bits := Hex.toBits hex
+      match decHeader d bits with
+      | .ok fl r => if fl.order != 0 then "unsupported-order" else decSumChunks gbFloat d fl (bits.length / 8 + 1) r 0 0 0
+      | r => resTag r
+  | _ => "bad-args"
+
 def padHex (digits : Nat) (s : String) : String :=
   String.ofList (List.replicate (digits - s.length) '0') ++ s
 
@@ -722,6 +772,7 @@ def cmdNumDec (args : List String) : String :=
 def answer (line : String) : String :=
   match line.trimAscii.toString.splitOn " " with
   | "dec" :: args => cmdDec args
+  | "decsum" :: args => cmdDecSum args
   | "enc" :: args => cmdEnc args
   | "dops" :: args => cmdDops args
   | "ldops" :: args => cmdLdops args
